@@ -344,6 +344,18 @@ def run_c09(tier, seed, replay=None):
             [["neq", "q", a], ["neq", "q", b], ["neq", ["list", "q", "r"], ["list", c3, c3]], ["eq", "r", "q"], ["lib", "member", "q", ["list", a, b, c3, 5]]],
         ])
         hs.append(mk_case([], ["q", "r", "t"], body, maxans=10, budget=3000))
+    # one later disequality implies k >= 4 stored ones at once: all of them leave the store, whichever
+    # order the store is scanned in (the reported constraint set must not depend on that order)
+    for _ in range(max(6, n // 25)):
+        k = rnd.randint(4, 8)
+        a = rnd.randint(1, 3)
+        vs = ["r", "t", "u", "v", "w", "x", "y", "z"][:k]
+        body = [["neq", ["list", "q", v], ["list", a, i + 2]] for i, v in enumerate(vs)]
+        rnd.shuffle(body)
+        body.append(["neq", "q", a])
+        if rnd.random() < 0.4:
+            body.append(rnd.choice([["eq", vs[0], vs[1]], ["neq", vs[0], 9], ["cond", ["eq", vs[0], 2], ["eq", vs[1], 2]]]))
+        hs.append(mk_case([], ["q"] + vs, body, maxans=4, budget=3000))
     cases = hs + cases            # among the first cases: they are also re-run in fresh processes
     for c in hs * 3:
         cases.append(dict(c))
